@@ -2,6 +2,7 @@
 from __future__ import annotations
 
 import json
+import os
 from unittest import mock
 
 import numpy as np
@@ -328,6 +329,18 @@ def jsonable(o):
     return json.loads(json.dumps(o, default=lambda x: x.tolist() if hasattr(x, 'tolist') else list(x)))
 
 
+_GUI_CONFIG = None
+
+
+def _gui_config():
+    global _GUI_CONFIG
+    if _GUI_CONFIG is None:
+        import panqec
+        with open(os.path.join(os.path.dirname(panqec.__file__), 'codes', 'gui-config.json')) as f:
+            _GUI_CONFIG = json.load(f)
+    return _GUI_CONFIG
+
+
 def check_request(c_app, req):
     name, cls, size, dn, rot = req['code_name'], req['class'], tuple(req['size']), req['deformation'], req['rotated']
     try:
@@ -349,9 +362,27 @@ def check_request(c_app, req):
             for k in ('object', 'color', 'opacity', 'params', 'location'):
                 if k not in got:
                     return f'qubit description {i} lacks {k}'
+        # independent of the class's own *_representation overrides: colours and opacities of the
+        # REQUESTED picture as listed in gui-config.json (no class replaces them; they only replace
+        # object/params/location details)
+        conf = _gui_config().get(code.id, {})
+        pic = 'rotated' if rot else 'kitaev'
+        qconf = conf.get('qubits', {}).get(pic)
+        if qconf is not None:
+            wantc = {k: code.colormap[v] for k, v in qconf['color'].items()}
+            for i, got in enumerate(data['qubits']):
+                if got.get('color') != wantc or got.get('opacity') != qconf['opacity']:
+                    return (f'qubit description {i}: colour/opacity is not the gui-config entry of the '
+                            f'requested picture ({pic})')
         for i, loc in enumerate(code.stabilizer_coordinates):
             want = jsonable(code.stabilizer_representation(loc, rot))
             got = data['stabilizers'][i]
+            sconf = conf.get('stabilizers', {}).get(pic, {}).get(code.stabilizer_type(loc))
+            if sconf is not None:
+                wantc = {k: code.colormap[v] for k, v in sconf['color'].items()}
+                if got.get('color') != wantc or got.get('opacity') != sconf['opacity']:
+                    return (f'stabilizer description {i} ({code.stabilizer_type(loc)} at {loc}): colour/opacity is '
+                            f'not the gui-config entry of the requested picture ({pic})')
             if got != want:
                 return f'stabilizer description {i} differs from stabilizer_representation({loc})'
             for k in ('object', 'color', 'opacity', 'params', 'location', 'type'):
